@@ -324,10 +324,14 @@ func (k *Case) runFinalize(csr *x509.CertificateRequest) (out string) {
 			fp = fps[k.FPs[i]%3]
 		}
 		// the stored authorization carries its identifier exactly as api.NewOrder creates it
-		// (wildcard prefix trimmed), so code that looks at the authorization's type sees it
+		// (wildcard prefix of a dns name trimmed), so code that looks at the authorization's type sees it
+		wild := k.IDs[i].T == "dns" && strings.HasPrefix(k.IDs[i].V, "*.")
+		val := k.IDs[i].V
+		if wild {
+			val = val[2:]
+		}
 		azs[id] = &acme.Authorization{ID: id, AccountID: "acc", Status: acme.StatusValid, Fingerprint: fp,
-			Identifier: acme.Identifier{Type: acme.IdentifierType(k.IDs[i].T), Value: strings.TrimPrefix(k.IDs[i].V, "*.")},
-			Wildcard:   strings.HasPrefix(k.IDs[i].V, "*.")}
+			Identifier: acme.Identifier{Type: acme.IdentifierType(k.IDs[i].T), Value: val}, Wildcard: wild}
 	}
 	var stored []*acme.Certificate
 	db := &acme.MockDB{
@@ -838,7 +842,7 @@ func corner() []*Case {
 		{Kind: "fin", Key: 1, IDs: []ID{d("a.example.com")}, DNS: []string{"a.example.com", "b.example.com"}},
 		{Kind: "fin", Key: 1, IDs: []ID{d("a.example.com"), d("b.example.com")}, DNS: []string{"a.example.com"}},
 		{Kind: "fin", Key: 1, IDs: []ID{d("a.example.com")}, DNS: []string{"a.example.com"}, CN: "b.example.com"},
-		// C13-F5: a common name that is not the validated name but lower-cases onto it (KELVIN SIGN, I WITH DOT ABOVE)
+		// C13-F5 (fixed in f1b3472): a common name that is not the validated name but lower-cased onto it (KELVIN SIGN, I WITH DOT ABOVE)
 		{Kind: "fin", Key: 1, IDs: []ID{d("kiwi.example.com")}, DNS: []string{"kiwi.example.com"}, CN: "\u212aiwi.example.com"},
 		{Kind: "fin", Key: 1, IDs: []ID{d("a.example.io")}, CN: "a.example.\u0130o"},
 		{Kind: "fin", Key: 1, IDs: []ID{d("a.example.com")}, DNS: []string{"a.example.com"}, Emails: []string{"root@example.com"}},
